@@ -123,6 +123,7 @@ def roles(fn):
     fold result next to it, other accumulators are named after what they accumulate:
     S[<delta>] for `x += delta`, C[<conds>] for `x += 1` under extra conditions."""
     names = {}
+    helper_locals = set()
     for blk in walk(fn.hir):
         if blk.get('k') != 'Block':
             continue
@@ -138,6 +139,12 @@ def roles(fn):
                     all(q.get('k') == 'Binding' for q in pat['ch']):
                 names[pat['ch'][0]['local']] = 'n'
                 names[pat['ch'][1]['local']] = 'sum'
+            if init.get('k') == 'MethodCall' and callee_is(init, *COUNT_SUM_HELPERS) and pat.get('k') == 'Binding':
+                helper_locals.add(pat['local'])
+            # `let n = r.0;` of a helper result bound to r
+            if init.get('k') == 'Field' and peel(init['ch'][0]).get('local') in helper_locals and \
+                    pat.get('k') == 'Binding':
+                names[pat['local']] = 'n' if init.get('field') == '0' else 'sum'
     env0 = N.self_env(fn)
     for cl in walk(fn.hir):
         if cl.get('k') not in ('Closure', 'For'):
@@ -180,6 +187,22 @@ def rtbl(fn, versions=False):
     env = N.self_env(fn)
     env['__names__'] = roles(fn)
     t = dtree.table(fn.hir, env)
+    # `(n, sum)` of a counting helper however it is taken apart: `let (n, sum) = h;` or
+    # `let r = h; r.0 .. r.1`
+    helpers = set()
+    for cs, l, ef in t:
+        for e in ef:
+            mh = re.match(r'(v\d+) := self\.(vfold_n|n_vsum_filter)\(', e)
+            if mh:
+                helpers.add(mh.group(1))
+    if helpers:
+        def proj(x):
+            for h in helpers:
+                x = re.sub(r"\b%s\.0\b" % h, 'n', x)
+                x = re.sub(r"\b%s\.1\b" % h, 'sum', x)
+            return x
+        t = dtree.Table((frozenset(proj(c) for c in cs), proj(l), tuple(proj(e) for e in ef)) for cs, l, ef in t)
+        env['__names__'] = dict(env['__names__'], **{'#helper': 'n'})
     if not versions:
         u = dtree.unprime
         t = dtree.Table((frozenset(u(c) for c in cs), u(l), tuple(u(e) for e in ef)) for cs, l, ef in t)
@@ -338,16 +361,21 @@ def check_folds(run, F):
         run.ob('NULL.fold', fn, name, leaf == w, fn.loc(), 'body = %s' % leaf)
     for name in ('vfold_n', 'vapply', 'vapply_n'):
         fn = F.one('IterBasic::' + name)
-        cl = [x for x in walk(fn.hir) if x.get('k') == 'Closure']
+        cl = [x for x in walk(fn.hir) if x.get('k') in ('Closure', 'For')]
         ok = len(cl) == 1
         det = ''
         if ok:
-            t = dtree.closure_table(fn.hir, cl[0], N.self_env(fn))
+            t = dtree.body_table(fn.hir, cl[0], N.self_env(fn))
             cnt = ('n AddAssign 1',) if name.endswith('_n') else ()
             if name == 'vfold_n':
                 w = N.T((['VALID(a1)'], 'f(a0, a1)', cnt), (['!VALID(a1)'], 'a0', ()))
             else:
-                w = N.T((['VALID(a0)'], 'f(a0)', cnt), (['!VALID(a0)'], '()', ()))
+                # a unit-valued body: the callback call is an effect whether it is the tail
+                # expression of a closure or a statement of a loop
+                def unit(tb):
+                    return dtree.Table((cs, '()', tuple(ef) + ((l,) if l != '()' else ())) for cs, l, ef in tb)
+                t = unit(t)
+                w = unit(N.T((['VALID(a0)'], 'f(a0)', cnt), (['!VALID(a0)'], '()', ())))
             ok = t == w
             det = 'closure table %s' % dtree.show(t)
             if name.endswith('_n'):
@@ -380,7 +408,7 @@ def check_tables(run, F):
         run.ob('AGG.table', fn, fn.name, leaf == w, fn.loc(), 'body = %s' % leaf)
     fn = F.one('AggValidBasic::count_none')
     t = N.tbl(fn)
-    w = N.T(([], "n'", ['n := 0', 'for a0 in self.into_iter() { if !VALID(a0) { n AddAssign 1; } }']))
+    w = N.T(([], "n'", ['n := 0', 'for a0 in self { if !VALID(a0) { n AddAssign 1; } }']))
     run.ob('AGG.table', fn, 'count_none', t == w, fn.loc(), dtree.show(t))
     fn = F.one('AggValidBasic::vcount_value')
     t = N.tbl(fn)
